@@ -54,9 +54,12 @@ type TLSConfig struct {
 	InsecureSkipVerify bool
 
 	// tlsConfig is the internal Go TLS configuration
-	tlsConfig   *tls.Config
-	mu          sync.RWMutex
-	currentCert atomic.Pointer[tls.Certificate] // atomically updated for concurrent reads
+	tlsConfig *tls.Config
+	mu        sync.RWMutex
+	// currentCert is the slot the listener's GetCertificate callback reads. It is
+	// shared with every Clone, so that ReloadCertificates on the settings returned
+	// by GetExportOptions() reaches the running listener.
+	currentCert *atomic.Pointer[tls.Certificate]
 }
 
 // DefaultTLSConfig returns a TLS configuration with secure defaults
@@ -154,12 +157,16 @@ func (tc *TLSConfig) BuildConfig() (*tls.Config, error) {
 	}
 
 	// Store cert atomically for concurrent-safe access
-	tc.currentCert.Store(&cert)
+	if tc.currentCert == nil {
+		tc.currentCert = new(atomic.Pointer[tls.Certificate])
+	}
+	current := tc.currentCert
+	current.Store(&cert)
 
 	// Create base TLS config using GetCertificate callback for hot-reload support
 	config := &tls.Config{
 		GetCertificate: func(*tls.ClientHelloInfo) (*tls.Certificate, error) {
-			return tc.currentCert.Load(), nil
+			return current.Load(), nil
 		},
 		MinVersion:               tc.MinVersion,
 		MaxVersion:               tc.MaxVersion,
@@ -210,8 +217,8 @@ func (tc *TLSConfig) GetConfig() (*tls.Config, error) {
 // ReloadCertificates reloads the server certificates without changing other settings
 // This is useful for certificate rotation without restarting the server
 func (tc *TLSConfig) ReloadCertificates() error {
-	tc.mu.RLock()
-	defer tc.mu.RUnlock()
+	tc.mu.Lock()
+	defer tc.mu.Unlock()
 
 	if !tc.Enabled {
 		return fmt.Errorf("TLS is not enabled")
@@ -225,6 +232,9 @@ func (tc *TLSConfig) ReloadCertificates() error {
 
 	// Atomically update the certificate - the GetCertificate callback
 	// will pick up the new cert on the next TLS handshake
+	if tc.currentCert == nil {
+		tc.currentCert = new(atomic.Pointer[tls.Certificate])
+	}
 	tc.currentCert.Store(&cert)
 
 	return nil
@@ -316,6 +326,7 @@ func (tc *TLSConfig) Clone() *TLSConfig {
 		MaxVersion:               tc.MaxVersion,
 		PreferServerCipherSuites: tc.PreferServerCipherSuites,
 		InsecureSkipVerify:       tc.InsecureSkipVerify,
+		currentCert:              tc.currentCert, // shared: a reload through the clone reaches the listener
 	}
 
 	// Copy cipher suites slice
